@@ -137,4 +137,5 @@ def phi_axioms(alg, name="phi"):
 
     def phi(a, b):
         return alg.opaque(name, [alg.lift(a), alg.lift(b)])
+    phi._elementwise = True
     return phi
